@@ -299,6 +299,9 @@ def check(ctx):
     ctx.rule("R9", "the configured budget is the budget in force: no parameter default of the package reads the runtime configuration object (a default is evaluated once, at import: `retry_count=GeckoConfig.PROTOCOL_RETRY_COUNT` in a signature keeps the import-time value whatever is configured later)")
     from .c17 import config_read_at_definition as _crad
     _crad(ctx, repo, "R9", skip_mods=("/driver/protocol/statusblock.py", "/driver/spastruct.py", "/driver/async_spastruct.py"))
+    ctx.rule("R10", "a reply is returned only if one was delivered: the long-lived packet consumer re-queues what its handler holds after EVERY datagram - the handler must assign the extracted identifiers and content for every datagram it handles, a malformed one included (else the previous reply's content is queued a second time and a request the spa never answered takes it as its answer) (C07.R4's rule on the packet handler borrowed)")
+    from .c07 import packet_fields_fresh as _pff
+    _pff(ctx.borrowed("R10", "C07"), repo, "R4")
     ctx.rule("R7", "a reply is only served to the request it was sent for: a reply that arrives after its request has given up is removed by the discard consumer after one polling interval also while the request lock is held (retry pause, queued callers) - otherwise it sits at the head and is handed to the next request of that verb at once (C07's discard-consumer model borrowed)")
     from .c07 import discard_consumer_model
     discard_consumer_model(ctx.borrowed("R7", "C07"), repo, "R7")
